@@ -19,7 +19,9 @@ import (
 	"fmt"
 	"math/big"
 
+	"github.com/tuneinsight/lattigo/v6/core/rlwe"
 	"github.com/tuneinsight/lattigo/v6/ring"
+	"github.com/tuneinsight/lattigo/v6/ring/ringqp"
 
 	"verif/engine"
 	"verif/ref"
@@ -237,10 +239,25 @@ func beAlphaScenario(ch chain, o beOp) engine.Scenario {
 // beTinyScenario: every integer of the input modulus (family="all") or the boundary family
 // {k·D+δ, k·D+⌊D/2⌋+δ : all k, |δ|<=3} (family="kD", down only), for one op and one (lq,lp).
 func beTinyScenario(Q, P []uint64, o beOp, lq, lp int, family string, parts int) engine.Scenario {
+	return beTinyShard(Q, P, o, lq, lp, family, parts, 0, 1)
+}
+
+// beTinyShard is beTinyScenario cut into `shards` scenarios (for the large ranges of the thorough tier, so that the
+// 16 workers share them); a sharded scenario alternates the alias mode with the part instead of running both.
+func beTinyShard(Q, P []uint64, o beOp, lq, lp int, family string, parts, shard, shards int) engine.Scenario {
 	name := fmt.Sprintf("basisext/tiny-exhaustive/Q=%v/P=%v/%s/lq=%d/lp=%d/%s", Q, P, o.name, lq, lp, family)
+	if shards > 1 {
+		name += fmt.Sprintf("/shard=%d", shard)
+	}
 	return engine.Scenario{Name: name, Bound: -1, Fn: func(c *engine.Chooser) {
 		part := c.Choose(parts, "part")
-		alias := c.Choose(aliasModes(o), "alias")
+		alias := 0
+		if shards > 1 {
+			part = part*shards + shard
+			alias = part % aliasModes(o)
+		} else {
+			alias = c.Choose(aliasModes(o), "alias")
+		}
 		x := newBE(Q, P)
 		_, dst, Sb, Db := x.shape(o, lq, lp)
 		S := Sb.Int64()
@@ -270,8 +287,8 @@ func beTinyScenario(Q, P []uint64, o beOp, lq, lp int, family string, parts int)
 			return ((v % S) + S) % S
 		}
 		nPolys := (dom + N - 1) / N
-		lo := nPolys * int64(part) / int64(parts)
-		hi := nPolys * int64(part+1) / int64(parts)
+		lo := nPolys * int64(part) / int64(parts*shards)
+		hi := nPolys * int64(part+1) / int64(parts*shards)
 		inQ := x.rQ.AtLevel(lq).NewPoly()
 		inP := x.rP.AtLevel(lp).NewPoly()
 		xs := make([]int64, N)
@@ -345,5 +362,103 @@ func beTinyScenario(Q, P []uint64, o beOp, lq, lp int, family string, parts int)
 			c.Cover("be-e", "nonzero")
 		}
 		c.Outcome(name, part, alias, h)
+	}}
+}
+
+// ---------------------------------------------------------------------------------------------
+// rlwe.Evaluator.ModDown: the four NTT-flag combinations around BasisExtender.ModDownQPtoQ[NTT] (and the copy /
+// transform-only paths when there is no P)
+
+func evaluatorModDownScenario(ch chain) engine.Scenario {
+	name := fmt.Sprintf("basisext/Evaluator.ModDown/%s", ch.name)
+	return engine.Scenario{Name: name, Bound: -1, Fn: func(c *engine.Chooser) {
+		lq := c.Choose(len(ch.Q), "levelQ")
+		lp := c.Choose(len(ch.P)+1, "levelP+1") - 1
+		inNTT := c.Choose(2, "ctQP.IsNTT") == 1
+		outNTT := c.Choose(2, "ct.IsNTT") == 1
+		P := ch.P
+		if lp == -1 {
+			P = nil // parameters without P: ModDown only copies / changes the domain
+		}
+		params, err := rlweParams(ch.Q, P)
+		if err != nil {
+			c.Fail("C02/decompose/rlwe-parameters-rejected", "rlwe parameters rejected: %v", err)
+			return
+		}
+		eval := rlwe.NewEvaluator(params, nil)
+		rQ := params.RingQ().AtLevel(lq)
+		rQP := params.RingQP().AtLevel(lq, lp)
+		S := prod(ch.Q[:lq+1])
+		D := bint(1)
+		if lp >= 0 {
+			D = prod(ch.P[:lp+1])
+			S = new(big.Int).Mul(S, D)
+		}
+		a := newAlphabet(S)
+		a.base()
+		if lp >= 0 {
+			a.divisor(D)
+		}
+		a.corners(ch.Q[:lq+1])
+		a.generic(16)
+		vals := a.vals
+		evals := 0
+		var h uint64
+		got := make([]uint64, lq+1)
+		for b := 0; b < nBlocks(vals); b++ {
+			for rot := 0; rot < 8; rot += 3 {
+				ctQP := &rlwe.Element[ringqp.Poly]{MetaData: &rlwe.MetaData{}, Value: []ringqp.Poly{rQP.NewPoly(), rQP.NewPoly()}}
+				ctQP.IsNTT = inNTT
+				xs := [2][]*big.Int{make([]*big.Int, N), make([]*big.Int, N)}
+				for u := 0; u < 2; u++ {
+					for j := 0; j < N; j++ {
+						v := blockValue(vals, b, rot+u, j) // the two components hold different rotations
+						xs[u][j] = v
+						setCoeff(ctQP.Value[u].Q.Coeffs, ch.Q[:lq+1], j, v)
+						if lp >= 0 {
+							setCoeff(ctQP.Value[u].P.Coeffs, ch.P[:lp+1], j, v)
+						}
+					}
+					if inNTT {
+						rQP.NTT(ctQP.Value[u], ctQP.Value[u])
+					}
+				}
+				ct := rlwe.NewCiphertext(params, 1, lq)
+				ct.IsNTT = outNTT
+				eval.ModDown(lq, lp, ctQP, ct)
+				for u := 0; u < 2; u++ {
+					if outNTT {
+						rQ.INTT(ct.Value[u], ct.Value[u])
+					}
+					for j := 0; j < N; j++ {
+						for i := 0; i <= lq; i++ {
+							got[i] = ct.Value[u].Coeffs[i][j]
+						}
+						rq := ref.RoundDivHalfUp(xs[u][j], D)
+						if lp < 0 {
+							rq = xs[u][j]
+						}
+						e, ok := fitE(got, ch.Q[:lq+1], rq, bint(1))
+						if (!ok || e != 0) && lp < 0 && inNTT == outNTT {
+							// known input class (FINDINGS.md #3): no P, same domain, ctQP.Q not aliasing ct: the copy goes the wrong way
+							c.Fail("C02/basisext/Evaluator.ModDown/noP-same-domain/copies-ct-into-ctQP-instead-of-ctQP-into-ct", "%s lq=%d ctQP.IsNTT=ct.IsNTT=%v component %d: x=%s lane %d: ct holds %v, want x", ch.name, lq, inNTT, u, xs[u][j], j, got)
+							return
+						}
+						if !ok || (lp < 0 && e != 0) {
+							c.Fail("C02/basisext/Evaluator.ModDown/quotient-error>1", "%s lq=%d lp=%d ctQP.IsNTT=%v ct.IsNTT=%v component %d: x=%s lane %d: output %v is not round(x/P)+e, e in {-1,0,1} (round=%s)", ch.name, lq, lp, inNTT, outNTT, u, xs[u][j], j, got, rq)
+							return
+						}
+					}
+				}
+				evals += 2 * N
+				h = h*1099511628211 + ct.Value[1].Coeffs[0][rot]
+			}
+		}
+		c.Count(evals)
+		c.Cover("evaluator-moddown", fmt.Sprintf("in=%v/out=%v", inNTT, outNTT))
+		if lp < 0 {
+			c.Cover("evaluator-moddown", "noP")
+		}
+		c.Outcome(name, lq, lp, inNTT, outNTT, h)
 	}}
 }
